@@ -38,6 +38,14 @@ def _import_cuqi():
     return cuqi
 
 
+class CaseTimeout(BaseException):
+    """a single generated case exceeded the wall-clock guard (a library call that does not return): inconclusive, never a violation"""
+
+
+def _case_limit():
+    return float(os.environ.get("VERIF_CASE_LIMIT", "600"))
+
+
 def raised_in_library(exc):
     """True when the exception originates in library code: walking the traceback from the innermost frame outwards, the
     first frame that belongs to either the repository tree or /verif is a repository frame (so an error raised by numpy
@@ -157,9 +165,18 @@ def _run_subcheck(sc, rec, tier, seed, shard, nshards, t_end):
             if state["first"] == h:
                 return
         rec.begin(case)
+        import signal
+
+        def _alarm(signum, frame):
+            raise CaseTimeout()
+        old_handler = signal.signal(signal.SIGALRM, _alarm)
+        signal.setitimer(signal.ITIMER_REAL, _case_limit())
         try:
             try:
                 sc.run(case, rec)
+            except CaseTimeout:
+                rec.inconc("case_wall_clock_limit")
+                return
             except (Violation, HarnessError):
                 raise
             except Exception as e:
@@ -174,6 +191,9 @@ def _run_subcheck(sc, rec, tier, seed, shard, nshards, t_end):
             state["fail"] = (case, v, rec._tags)
             rec.frozen = True
             raise
+        finally:
+            signal.setitimer(signal.ITIMER_REAL, 0)
+            signal.signal(signal.SIGALRM, old_handler)
 
     if sc.enum is not None:
         cases = list(sc.enum(tier))
